@@ -27,7 +27,9 @@ var midiCmdPortOut = &cobra.Command{
 	Short: `show out ports`,
 	RunE: func(_ *cobra.Command, _ []string) error {
 		for _, x := range midix.GetOutPortNames() {
-			fmt.Println(x)
+			if _, err := fmt.Println(x); err != nil {
+				return err
+			}
 		}
 		return nil
 	},
@@ -38,7 +40,9 @@ var midiCmdPortIn = &cobra.Command{
 	Short: `show in ports`,
 	RunE: func(_ *cobra.Command, _ []string) error {
 		for _, x := range midix.GetInPortNames() {
-			fmt.Println(x)
+			if _, err := fmt.Println(x); err != nil {
+				return err
+			}
 		}
 		return nil
 	},
